@@ -92,6 +92,12 @@ Proof.
   intros H [Hk|Hk]; [subst k'; now rewrite beqb_refl in E | now apply IH].
 Qed.
 
+(* the regenerated switches: /repo's sources carry the three earlier repairs (Readdir count bound,
+   own-entry test by object path, RemoveAll of an implicit folder), so the configuration the
+   correspondence check runs is the one the theorems below are stated for *)
+Lemma cfg_src_is_patched : cfg_src = cfg_patched.
+Proof. reflexivity. Qed.
+
 (* the regenerated switch: the folder probe of newFileInfo lists with the prefix path+"/" *)
 Lemma gcs_fileinfo_prefix_sep_fact : gcs_fileinfo_prefix_sep = 1.
 Proof. reflexivity. Qed.
